@@ -58,6 +58,7 @@ var items = []item{
 	{"directive", `<!DOCTYPE x>`, kBad},
 	{"restart", `<stream:stream xmlns='jabber:client' xmlns:stream='http://etherx.jabber.org/streams' version='1.0'>`, kBad},
 	{"stream-other", `<stream:other/>`, kBad},
+	{"stream-features", `<stream:features><bind xmlns='urn:ietf:params:xml:ns:xmpp-bind'/></stream:features>`, kBad}, // a features list outside negotiation is just another stream-namespace element
 	{"bad-close", `</foo>`, kBad},
 	{"truncated-element", `<message><body>`, kElemTrunc},
 	{"nested1-comment", `<message><!-- c --><body/></message>`, kElemBad},
